@@ -1118,4 +1118,49 @@ Proof. intros. eapply (proj1 tget_spec_mut); eauto. Qed.
 Corollary tget_spec_WF : forall root lo hi t k,
   WF root lo hi t -> tget V t k = alookup (contents t) k.
 Proof. intros root lo hi t k [_ H]. eapply tget_spec; eauto. Qed.
+
+(* ================================================================== *)
+(* 11. Splitting                                                       *)
+(* ================================================================== *)
+(* --- arithmetic of Nat.div2 --- *)
+Lemma div2_bounds : forall n, (2 * Nat.div2 n <= n <= 2 * Nat.div2 n + 1)%nat.
+Proof.
+  intros. pose proof (Nat.div2_odd n) as H. destruct (Nat.odd n); simpl Nat.b2n in H; lia.
+Qed.
+Lemma div2_halves_overflow : forall n bound,
+  n = (bound + 1)%nat -> (1 <= bound)%nat ->
+  (1 <= Nat.div2 n <= bound)%nat /\ (1 <= n - Nat.div2 n <= bound)%nat.
+Proof. intros. pose proof (div2_bounds n). lia. Qed.
+Lemma div2_halves_double : forall n m,
+  n = (2 * m)%nat -> Nat.div2 n = m /\ (n - Nat.div2 n)%nat = m.
+Proof. intros. pose proof (div2_bounds n). lia. Qed.
+Lemma div2_halves_pos : forall n, (2 <= n)%nat ->
+  (1 <= Nat.div2 n)%nat /\ (1 <= n - Nat.div2 n)%nat /\ (Nat.div2 n < n)%nat.
+Proof. intros. pose proof (div2_bounds n). lia. Qed.
+
+(* --- halves of a list --- *)
+Lemma halves_app : forall (A : Type) (l : list A),
+  firstn (Nat.div2 (length l)) l ++ skipn (Nat.div2 (length l)) l = l.
+Proof. intros. apply firstn_skipn. Qed.
+Lemma halves_length : forall (A : Type) (l : list A),
+  length (firstn (Nat.div2 (length l)) l) = Nat.div2 (length l) /\
+  length (skipn (Nat.div2 (length l)) l) = (length l - Nat.div2 (length l))%nat.
+Proof.
+  intros. rewrite skipn_length, firstn_length. pose proof (div2_bounds (length l)). lia.
+Qed.
+Lemma halves_nonempty : forall (A : Type) (l : list A), (2 <= length l)%nat ->
+  firstn (Nat.div2 (length l)) l <> [] /\ skipn (Nat.div2 (length l)) l <> [].
+Proof.
+  intros A l H. destruct (halves_length A l) as [H1 H2].
+  destruct (div2_halves_pos _ H) as (H3 & H4 & _).
+  split; intros E; rewrite E in *; simpl in *; lia.
+Qed.
+Lemma halves_sorted : forall (l : list (Z * V)), ksorted l ->
+  ksorted (firstn (Nat.div2 (length l)) l) /\ ksorted (skipn (Nat.div2 (length l)) l).
+Proof.
+  intros l H. rewrite <- (halves_app _ l) in H at 1 2.
+  split; [eapply ksorted_app_l | eapply ksorted_app_r].
+  - rewrite <- (halves_app _ l) in H. exact H.
+  - rewrite <- (halves_app _ l) in H. exact H.
+Qed.
 End Base.
